@@ -87,6 +87,13 @@ class Checkpoints:
             if self.parked.get(owner, (None, None))[1] is fut:
                 del self.parked[owner]
 
+    def fail(self, owner: str, exc: BaseException) -> str:
+        """make the parked lock acquisition raise instead of proceeding"""
+        label, fut = self.parked[owner]
+        if not fut.done():
+            fut.set_exception(exc)
+        return label
+
     def release(self, owner: str) -> str:
         label, fut = self.parked[owner]
         if not fut.done():
